@@ -185,10 +185,181 @@ def unit_globals(repo, gen):
     return "\n".join(out) + "\n"
 
 
+class _Subst(ast.NodeTransformer):
+    """Inline trivial helper methods (`def _x(self): return <expr>`) and local aliases (`name = <simple expr>`)."""
+
+    def __init__(self, helpers, aliases):
+        self.helpers, self.aliases = helpers, aliases
+
+    def visit_Call(self, node):
+        self.generic_visit(node)
+        f = node.func
+        if isinstance(f, ast.Attribute) and isinstance(f.value, ast.Name) and f.value.id == "self" \
+                and f.attr in self.helpers and not node.args and not node.keywords:
+            return self.helpers[f.attr]
+        return node
+
+    def visit_Name(self, node):
+        if isinstance(node.ctx, ast.Load) and node.id in self.aliases:
+            return self.aliases[node.id]
+        return node
+
+
+def _trivial_helpers(cls, gen):
+    out = {}
+    for m in cls.body:
+        if isinstance(m, ast.FunctionDef) and len(m.args.args) == 1 and not m.args.vararg and not m.args.kwarg:
+            body = gen.body_without_doc(m)
+            if len(body) == 1 and isinstance(body[0], ast.Return) and body[0].value is not None:
+                out[m.name] = body[0].value
+    return out
+
+
+def _positive(test):
+    """The condition that must hold to get PAST a guard whose body leaves the function."""
+    if isinstance(test, ast.UnaryOp) and isinstance(test.op, ast.Not):
+        return ast.unparse(test.operand)
+    return "not " + (ast.unparse(test) if isinstance(test, (ast.Name, ast.Attribute, ast.Call)) else "(" + ast.unparse(test) + ")")
+
+
+def _leaves(stmts, miss_values):
+    """Do these statements do nothing but leave the function with a miss (`return False` / `return` / `pass`+fallthrough)?"""
+    if len(stmts) != 1:
+        return False
+    s = stmts[0]
+    if isinstance(s, ast.Return):
+        v = s.value
+        return v is None or (isinstance(v, ast.Constant) and v.value in miss_values)
+    return False
+
+
+def _file_op(expr):
+    """vfs / pickle calls are the file operations of interest."""
+    if isinstance(expr, ast.Call):
+        txt = ast.unparse(expr.func)
+        if txt.startswith(("self.vfs.", "pickle.")):
+            return ast.unparse(expr)
+    return None
+
+
+def _hit_path(fn, gen, subst, skip_init=True):
+    """Linear description of the way through `fn` that does NOT leave early: the guards that must hold and the file
+    operations performed, in order -- independent of whether the code is written with early returns or nested ifs."""
+    path = []
+
+    def walk(stmts, handlers=""):
+        i = 0
+        while i < len(stmts):
+            s = stmts[i]
+            rest = stmts[i + 1:]
+            if isinstance(s, ast.Expr) and isinstance(s.value, ast.Constant):
+                pass
+            elif isinstance(s, ast.If):
+                test = subst.visit(ast.parse(ast.unparse(s.test), mode="eval").body)
+                ttxt = ast.unparse(test)
+                if skip_init and "hasattr" in ttxt:
+                    pass                                   # one-time initialisation of the cache parameters
+                elif not s.orelse and _leaves(s.body, (False, None)):
+                    path.append("guard: " + _positive(test))
+                elif not s.orelse and _leaves(rest, (False, None)):
+                    path.append("guard: " + ttxt)          # if A: <the way on>  ; return False
+                    walk(s.body, handlers)
+                    return
+                elif s.orelse and _leaves(s.orelse, (False, None)):
+                    path.append("guard: " + ttxt)
+                    walk(s.body, handlers)
+                elif s.orelse and _leaves(s.body, (False, None)):
+                    path.append("guard: " + _positive(test))
+                    walk(s.orelse, handlers)
+                else:
+                    raise gen.Unsupported("%s: if-statement shape not understood: %s" % (fn.name, ttxt))
+            elif isinstance(s, ast.Try):
+                if s.orelse or s.finalbody:
+                    raise gen.Unsupported("%s: try with else/finally" % fn.name)
+                hs = []
+                for hnd in s.handlers:
+                    ty = ast.unparse(hnd.type) if hnd.type is not None else "BaseException"
+                    if _leaves(hnd.body, (False, None)):
+                        hs.append(ty + " -> miss")
+                    elif len(hnd.body) == 1 and isinstance(hnd.body[0], ast.Pass):
+                        hs.append(ty + " -> ignored")
+                    else:
+                        raise gen.Unsupported("%s: exception handler does more than leave" % fn.name)
+                walk(s.body, " [" + "; ".join(hs) + "]")
+            elif isinstance(s, ast.With):
+                for it in s.items:
+                    e = subst.visit(ast.parse(ast.unparse(it.context_expr), mode="eval").body)
+                    op = _file_op(e)
+                    if op is None:
+                        raise gen.Unsupported("%s: with-statement on something else than a file" % fn.name)
+                    path.append("op: " + op + handlers)
+                walk(s.body, handlers)
+            elif isinstance(s, (ast.Assign, ast.AnnAssign, ast.Expr)):
+                val = s.value
+                if val is None:
+                    pass
+                else:
+                    e = subst.visit(ast.parse(ast.unparse(val), mode="eval").body)
+                    op = _file_op(e)
+                    tg = None
+                    if isinstance(s, ast.Assign) and len(s.targets) == 1:
+                        tg = s.targets[0]
+                    elif isinstance(s, ast.AnnAssign):
+                        tg = s.target
+                    if op is not None:
+                        path.append("op: " + op + handlers)
+                    elif isinstance(tg, ast.Attribute) and ast.unparse(tg).startswith("self."):
+                        path.append("set: %s = %s" % (ast.unparse(tg), ast.unparse(e)))
+                    elif isinstance(tg, ast.Name) and tg.id in subst.aliases:
+                        pass                               # a local alias, already substituted
+                    elif isinstance(s, ast.Expr):
+                        raise gen.Unsupported("%s: expression statement %s" % (fn.name, ast.unparse(e)))
+                    else:
+                        raise gen.Unsupported("%s: assignment not understood: %s" % (fn.name, ast.unparse(s)))
+            elif isinstance(s, ast.Return):
+                v = s.value
+                if v is not None and isinstance(v, ast.Constant) and v.value is True:
+                    path.append("hit")
+                elif v is None or (isinstance(v, ast.Constant) and v.value in (False, None)):
+                    path.append("leave")
+                else:
+                    raise gen.Unsupported("%s: returns a computed value" % fn.name)
+                return
+            elif isinstance(s, ast.Pass):
+                pass
+            else:
+                raise gen.Unsupported("%s: statement %s" % (fn.name, type(s).__name__))
+            i += 1
+
+    walk(gen.body_without_doc(fn))
+    return path
+
+
+def _aliases(fn):
+    """local names assigned exactly once, at the top level of the function, from an attribute of self"""
+    counts, vals = {}, {}
+    for n in ast.walk(fn):
+        if isinstance(n, ast.Assign):
+            for tg in n.targets:
+                if isinstance(tg, ast.Name):
+                    counts[tg.id] = counts.get(tg.id, 0) + 1
+                    vals[tg.id] = n.value
+        elif isinstance(n, (ast.AugAssign, ast.AnnAssign, ast.NamedExpr)) and isinstance(n.target, ast.Name):
+            counts[n.target.id] = counts.get(n.target.id, 0) + 2
+        elif isinstance(n, (ast.For, ast.With)):
+            for x in ast.walk(n.target if isinstance(n, ast.For) else ast.Tuple([i.optional_vars for i in n.items if i.optional_vars], ast.Store())):
+                if isinstance(x, ast.Name):
+                    counts[x.id] = counts.get(x.id, 0) + 2
+    top = {tg.id for s in fn.body if isinstance(s, ast.Assign) for tg in s.targets if isinstance(tg, ast.Name)}
+    return {k: v for k, v in vals.items() if counts.get(k) == 1 and k in top and isinstance(v, ast.Attribute)
+            and isinstance(v.value, ast.Name) and v.value.id == "self"}
+
+
 def unit_cachesite(repo, gen):
     """Where the directory cache lives and when it is believed, as the source says it (handlers/dir.py): the
-    configuration options DirHandler reads, the expression naming the cache file, the freshness test of
-    loadcache(), and the iswritable() guards of loadcache() and savecache()."""
+    configuration options DirHandler reads, the expression naming the cache file (trivial helper methods inlined),
+    and -- independent of statement shapes -- the sequence of guards and file operations on the way to a cache hit
+    in loadcache() and to the write in savecache()."""
     rel = "pygopherd/handlers/dir.py"
     tree = gen.parse(repo, rel)
     cls = gen.find_class(tree, "DirHandler")
@@ -202,53 +373,71 @@ def unit_cachesite(repo, gen):
             if len(n.args) < 2 or not isinstance(n.args[1], ast.Constant):
                 raise gen.Unsupported("DirHandler reads a computed option name")
             options.add(n.args[1].value)
+    helpers = _trivial_helpers(cls, gen)
     names = []
     for n in ast.walk(cls):
         if isinstance(n, ast.Assign):
             for tg in n.targets:
                 if isinstance(tg, ast.Attribute) and tg.attr == "cachename":
-                    names.append(ast.unparse(n.value))
-    tests = [ast.unparse(n.test) for n in ast.walk(load) if isinstance(n, ast.If) and "cachetime" in ast.unparse(n.test)
-             and "hasattr" not in ast.unparse(n.test)]
-
-    def guarded(fn):
-        for n in gen.body_without_doc(fn):
-            if isinstance(n, ast.If) and ast.unparse(n.test) == "not self.vfs.iswritable(self.cachename)" \
-                    and len(n.body) == 1 and isinstance(n.body[0], ast.Return):
-                return True
-        return False
-
-    # every function of the class that touches the cache file name
-    users = sorted({f.name for f in cls.body if isinstance(f, ast.FunctionDef)
+                    e = _Subst(helpers, {}).visit(ast.parse(ast.unparse(n.value), mode="eval").body)
+                    names.append(ast.unparse(e))
+    load_path = _hit_path(load, gen, _Subst(helpers, _aliases(load)))
+    save_path = _hit_path(save, gen, _Subst(helpers, _aliases(save)))
+    # every function of the class (trivial helpers aside) that touches the cache file name
+    users = sorted({f.name for f in cls.body if isinstance(f, ast.FunctionDef) and f.name not in helpers
                     and any(isinstance(m, ast.Attribute) and m.attr == "cachename" for m in ast.walk(f))})
     s = gen.coq_str
     out = ["(* GENERATED by translate/gen_sites.py from pygopherd/handlers/dir.py — do not edit *)",
            "From PG Require Import Lib.Str.", "Local Open Scope N_scope.",
            "Definition dir_options : list str := " + gen.coq_list(s(o) for o in sorted(options)) + ".",
            "Definition cachename_exprs : list str := " + gen.coq_list(s(x) for x in names) + ".",
-           "Definition freshness_tests : list str := " + gen.coq_list(s(x) for x in tests) + ".",
-           "Definition loadcache_guarded : bool := %s." % ("true" if guarded(load) else "false"),
-           "Definition savecache_guarded : bool := %s." % ("true" if guarded(save) else "false"),
+           "Definition loadcache_path : list str := " + gen.coq_list(s(x) for x in load_path) + ".",
+           "Definition savecache_path : list str := " + gen.coq_list(s(x) for x in save_path) + ".",
            "Definition cachename_users : list str := " + gen.coq_list(s(x) for x in users) + ".",
-           "(* human-readable: options %s | cachename %s | fresh %s | users %s *)" % (sorted(options), names, tests, users)]
+           "(* human-readable: options %s | cachename %s | load %s | save %s | users %s *)" % (
+               sorted(options), names, load_path, save_path, users)]
     return "\n".join(out) + "\n"
 
 
+SOCKETSERVER_HOOKS = {"verify_request", "process_request", "process_request_thread", "finish_request", "get_request",
+                      "handle_error", "handle_timeout", "service_actions", "shutdown_request", "close_request",
+                      "server_activate", "server_bind", "server_close", "serve_forever", "fileno", "handle_request",
+                      # request handler side and construction
+                      "handle", "setup", "finish", "__init__", "collect_children"}
+
+
 def unit_serversite(repo, gen):
-    """pygopherd/server.py: which socketserver hooks the server classes define, and which attributes of the server /
-    handler objects are assigned where -- the per-process state that connections could share."""
+    """pygopherd/server.py: the socketserver hooks the server / handler classes override, the methods reachable from
+    them (the request path), and the attributes of the server / handler objects assigned on that path -- the
+    per-process state connections could share.  Methods nothing on that path calls are not listed."""
     rel = "pygopherd/server.py"
     tree = gen.parse(repo, rel)
+    classes = [c for c in tree.body if isinstance(c, ast.ClassDef)]
+    allm = {}
+    for c in classes:
+        for m in c.body:
+            if isinstance(m, ast.FunctionDef):
+                allm.setdefault(m.name, []).append((c.name, m))
+    # reachability by name (classes here inherit from each other: a call self.x() may land in any of them)
+    reach = {n for n in allm if n in SOCKETSERVER_HOOKS}
+    todo = list(reach)
+    while todo:
+        nm = todo.pop()
+        for _, m in allm.get(nm, []):
+            for n in ast.walk(m):
+                if isinstance(n, ast.Call) and isinstance(n.func, ast.Attribute) and n.func.attr in allm:
+                    base_ = ast.unparse(n.func.value)
+                    if base_ in ("self", "self.server", "server", "super()") and n.func.attr not in reach:
+                        reach.add(n.func.attr)
+                        todo.append(n.func.attr)
     methods, writes, class_attrs = [], [], []
-    for c in tree.body:
-        if not isinstance(c, ast.ClassDef):
-            continue
+    for c in classes:
         for m in c.body:
             if isinstance(m, (ast.Assign, ast.AnnAssign)) and getattr(m, "value", None) is not None:
                 for tg in (m.targets if isinstance(m, ast.Assign) else [m.target]):
                     if isinstance(tg, ast.Name):
                         class_attrs.append((c.name, tg.id))
-            if not isinstance(m, ast.FunctionDef):
+            if not isinstance(m, ast.FunctionDef) or m.name not in reach:
                 continue
             methods.append((c.name, m.name))
             for n in ast.walk(m):
@@ -260,7 +449,6 @@ def unit_serversite(repo, gen):
                 for tg in tgs:
                     for x in ast.walk(tg):
                         if isinstance(x, (ast.Attribute, ast.Subscript)) and isinstance(getattr(x, "ctx", None), ast.Store):
-                            base_ = x.value
                             txt = ast.unparse(x)
                             if txt.startswith(("self.", "server.")):
                                 writes.append((c.name, m.name, txt))
@@ -278,7 +466,7 @@ def unit_serversite(repo, gen):
            "Definition server_class_attrs : list (str * str) := " + gen.coq_list("(%s, %s)" % (s(a), s(b)) for a, b in class_attrs) + ".",
            "Definition server_attr_writes : list (str * str * str) := " +
            gen.coq_list("(%s, %s, %s)" % (s(a), s(b), s(c)) for a, b, c in writes) + ".",
-           "(* human-readable: methods %s | class attrs %s | writes %s *)" % (methods, class_attrs, writes)]
+           "(* human-readable: request-path methods %s | class attrs %s | writes %s *)" % (methods, class_attrs, writes)]
     return "\n".join(out) + "\n"
 
 
